@@ -136,45 +136,6 @@ def modelClass (op kind : String) : Option OpClass :=
   | some c => some c
   | none => docClass op kind
 
-/-! ### what the source says about an operation (hints regenerated by harness/c07_gen.py into Gen/C07Api.lean) -/
-
-/-- the classes a source-derived hint is compatible with -/
-def hintAllows (hint : String) (c : OpClass) : Bool :=
-  match hint with
-  | "foreachInplace" => c == .inplace          -- the body calls torch._foreach_<op>_ on the leaves
-  | "foreachOut" => c == .outOfPlace           -- the body calls torch._foreach_<op> (and no in-place kernel)
-  | "docInplaceTwin" => c == .inplace          -- "In-place version of …" / "Computes … in-place."
-  | "docView" => c == .view                    -- "Returns a view …"
-  | "docShallow" => c == .view || c == .outOfPlace
-  | "lockBlocked" => c == .rebind              -- @lock_blocked: a structural write on the container
-  | _ => false
-
-def hintOk (p : String × String) : Bool :=
-  match classTable.lookup p.1 with
-  | some c => hintAllows p.2 c
-  | none => false
-
-/-- the functions Model/C07Storage.lean, C07SetStr.lean and C07Table.lean transcribe, with the shape (sha1 of the
-normalised ast) they had when they were transcribed — to be updated together with the model -/
-def expectedShapes : List (String × String) := [
-  ("tensordict/base.py:TensorDictBase._convert_inplace", "f854385e8275de5c"),
-  ("tensordict/base.py:TensorDictBase.set", "4ca905a75bf84507"),
-  ("tensordict/base.py:TensorDictBase.set_", "765842236467c4ba"),
-  ("tensordict/base.py:TensorDictBase.to_tensordict", "2e4e4d28d57d459c"),
-  ("tensordict/base.py:TensorDictBase.clone", "fe5eeda10de48556"),
-  ("tensordict/base.py:TensorDictBase.copy", "2350fb425ae4e308"),
-  ("tensordict/_td.py:TensorDict._set_str", "697927592369ecba"),
-  ("tensordict/_td.py:TensorDict._clone", "a0b6103e6539a116"),
-  ("tensordict/_td.py:TensorDict.contiguous", "b0a727ed95204f34"),
-  ("tensordict/_td.py:_SubTensorDict._index_tensordict", "689b53efdff43769"),
-  ("tensordict/_td.py:_SubTensorDict._select", "7d6dd40b12315a82"),
-  ("tensordict/_td.py:_SubTensorDict._exclude", "e81531bcae904de4"),
-  ("tensordict/_td.py:_SubTensorDict.replace", "edd2e36bfdb91b70"),
-  ("tensordict/_lazy.py:LazyStackedTensorDict.expand", "57b11f860d2dd5c1"),
-  ("tensordict/_lazy.py:LazyStackedTensorDict._flatten_keys_outplace", "865d5c96da5d1868"),
-  ("tensordict/_lazy.py:LazyStackedTensorDict.contiguous", "45ae7dd213e69f23")
-]
-
 /-- the operations the property statement names as documented in-place -/
 def propertyInplace : List String :=
   ["set_", "update_", "set_at_", "update_at_", "copy_", "fill_", "zero_", "apply_", "masked_fill_",
